@@ -9,7 +9,7 @@ from checks.tcpcl_common import *
 
 MANIFEST = {
     'text': 'Bounded symbolic model checking of the real receive dispatch and handlers: in each of 8 session '
-            'states (reached through the API) every message type with fully symbolic fields (transfer id, flags, '
+            'states incl. a bundle queued before establishment (reached through the API) every message type with fully symbolic fields (transfer id, flags, '
             'length, reason, unknown type code, contact magic/version) is delivered, alone (quick) or in pairs '
             '(thorough); obligations: no exception escapes an event-loop callback, illegal messages are answered '
             'by MSG_REJECT / SESS_TERM / close, delivered data matches an independent reassembly model, and the '
@@ -18,8 +18,8 @@ MANIFEST = {
             'adversarial messages, own bundle <= 2 segments, data blobs of symbolic length.',
     'ref': '5 C17'}
 BOUNDS = {
-    'quick': dict(states=8, adversarial_messages=1, own_bundle_segments='<= 2', fields='all symbolic'),
-    'thorough': dict(states=8, adversarial_messages=2, own_bundle_segments='<= 2', fields='all symbolic'),
+    'quick': dict(states=9, adversarial_messages=1, own_bundle_segments='<= 2', fields='all symbolic'),
+    'thorough': dict(states=9, adversarial_messages=2, own_bundle_segments='<= 2', fields='all symbolic'),
 }
 ASSUMPTIONS = [
     'messages are syntactically valid RFC 9174 encodings (malformed framing is C07)',
@@ -31,7 +31,7 @@ REQUIRED_CLASSES = {'all': ['illegal', 'legal']}
 QUICK_VALIDATE = 4
 MAX_PATHS = {'quick': 20000, 'thorough': 100000}
 
-STATES = ['contact', 'sessneg', 'idle', 'queued', 'midsend', 'await-ack', 'rx', 'terminating']
+STATES = ['contact', 'sessneg', 'sessneg-queued', 'idle', 'queued', 'midsend', 'await-ack', 'rx', 'terminating']
 KINDS = ['XFER_SEGMENT', 'XFER_ACK', 'XFER_REFUSE', 'SESS_TERM', 'KEEPALIVE', 'MSG_REJECT', 'SESS_INIT', 'UNKNOWN']
 
 
@@ -111,9 +111,17 @@ def harness(case, tier):
     peer = Peer(w)
     own = None
     rx_tid = None
+    if st == 'sessneg-queued':
+        # the user queued a bundle before the session is established
+        ln = c.sym_int('lenA', 1, 2 ** 64 - 1, size=True)
+        c.assume(ln <= w.a._config.segment_size_tx_initial)
+        data = c.sym_blob('bundleA', ln)
+        tid = w.a.send_bundle_fileobj(BytesIO(data))
+        own = dict(tid=tid, ln=ln, data=data)
+        w.run(100)
     if st != 'contact':
         peer.send(dict(kind='contact', flags=0))
-    if st not in ('contact', 'sessneg'):
+    if st not in ('contact', 'sessneg', 'sessneg-queued'):
         peer.send(PEER_INIT)
         c.prove(w.a._state == 'established', 'setup:established')
     if st in ('queued', 'midsend', 'await-ack'):
@@ -165,6 +173,7 @@ def harness(case, tier):
                 # read as a contact header its version octet is the third octet of the transfer id
                 c.assume((rec['transfer_id'] // 256 ** 5) % 256 != 3)
             illegal = is_illegal(c, w, st, rec, own, peer, in_sess)
+            rec['_illegal'] = illegal
             peer.send(rec)
         if closed_before:
             continue
@@ -179,6 +188,9 @@ def harness(case, tier):
     esc = w.escaped()
     c.prove(not esc, 'no-callback-exception[%s,%s]' % (st, case['msgs']), detail=[repr(e) for (_s, e) in esc])
 
+    if st in ('sessneg', 'sessneg-queued') and 'A' not in w.closed_socks and not esc and not w.a._in_sess:
+        # the peer now completes session negotiation
+        peer.send(PEER_INIT)
     # cooperative continuation: finish the inbound transfer, acknowledge everything A sent
     alive = 'A' not in w.closed_socks and w.a._in_sess and not w.a._in_term and not esc
     if alive and st == 'rx':
@@ -203,7 +215,7 @@ def harness(case, tier):
     c.prove(len(esc2) == len(esc), 'no-callback-exception-afterwards[%s]' % st, detail=[repr(e) for (_s, e) in esc2])
 
     # data integrity against an independent reassembly model
-    exp = model_deliveries(peer.sent_segments) if w.a._in_sess or st not in ('contact', 'sessneg') else []
+    exp = model_deliveries(peer.sent_segments) if st not in ('contact', 'sessneg', 'sessneg-queued') else []
     queue = list(w.a.recv_bundle_get_queue())
     c.prove(len(queue) <= len(exp), 'no-delivery-from-mismatched-segments[%s]' % st,
             detail=dict(queue=queue, expected=len(exp)))
@@ -229,11 +241,10 @@ def is_about(c, rec, tid):
 
 def peer_touched(case, c, own, peer):
     ''' Did an adversarial ACK/REFUSE/SESS_TERM legitimately concern A's own transfer or end the session? '''
-    for k in case['msgs'].split('+'):
-        if k in ('SESS_TERM', 'SESS_INIT'):
-            return True
     for r in peer.adv:
-        if is_about(c, r, own['tid']):
+        if r.get('_illegal'):
+            continue       # rejected messages must leave the transfer alone
+        if r['kind'] in ('SESS_TERM', 'SESS_INIT') or is_about(c, r, own['tid']):
             return True
     return False
 
